@@ -15,6 +15,7 @@ import (
 	"strings"
 
 	mocker "github.com/tencent/goom"
+	"github.com/tencent/goom/zzverif/base"
 	t6 "verifh/targets/c06types"
 	"verifh/vk"
 )
@@ -82,21 +83,6 @@ func entriesFor(m *t6.MethodDesc) []string {
 		e = append(e, eStructMethodApply, eStructMethodReturn)
 	}
 	return append(e, eStructExportApply, eStructExportAsRet, ePkgExportStructAppl, ePkgExportStructRet)
-}
-
-// primaryEntry is the entry point "matching" the target (used for pairs).
-func primaryEntry(m *t6.MethodDesc) string {
-	switch {
-	case m.Generic == "gfunc":
-		return eFuncApply
-	case m.Generic == "gmethod":
-		return eStructMethodApply
-	case !m.ExportedType:
-		return ePkgExportStructAppl
-	case !m.ExportedMethod:
-		return eStructExportApply
-	}
-	return eStructMethodApply
 }
 
 func isApply(entry string) bool {
@@ -275,13 +261,32 @@ func phase(name string, k int64, rec *t6.Rec, mocked, touched map[int]mockInfo, 
 	return nil
 }
 
+// dirty is set when a case ended with targets possibly still patched (failed Reset / not original after
+// Reset); the next case first removes every patch goom knows about and re-checks the baseline.
+var dirty bool
+
+// errPoisoned is returned when the baseline cannot be re-established after an earlier violation.
+var errPoisoned = &failure{"before", "-", "poisoned", "targets are not original although no mock is installed (left over from an earlier violation)"}
+
 // run executes one case.
 func run(cs *Case) (fl *failure, st stats) {
 	rec := &t6.Rec{}
 	none := map[int]mockInfo{}
+	if dirty {
+		vk.Try(base.UnpatchAll)
+	}
 	if f := phase("before", cs.K, rec, none, none, &st); f != nil {
+		if dirty {
+			return errPoisoned, st
+		}
 		vk.Fatalf("harness: the unmocked targets do not behave as generated: %s", f.desc)
 	}
+	dirty = false
+	defer func() {
+		if fl != nil && fl.phase != "apply" && fl.phase != "during" {
+			dirty = true
+		}
+	}()
 	b := mocker.Create()
 	resetDone := false
 	defer func() {
@@ -388,6 +393,11 @@ func Run(c *vk.Ctx) {
 		}{cs, "mocks=" + cs.id()})
 		c.Note(string(note))
 		fl, st := run(&cs)
+		if fl == errPoisoned {
+			c.Res.Exhaustive = false
+			c.Res.Extra["stopped"] = "baseline could not be re-established after an earlier violation; remaining cases of this shard not executed"
+			break
+		}
 		c.Res.Evaluations++
 		c.Res.Traces++
 		c.Res.States++
